@@ -61,6 +61,16 @@ package paillier
 //@   ensures result != nil && fresh(result) && fresh(result.c)
 //@   ensures[C12] natval(result.c) == (modexp(natval(pk.nPlusOne), natval(m), natval(pk.nNat) * natval(pk.nNat)) * modexp(natval(nonce), natval(pk.nNat), natval(pk.nNat) * natval(pk.nNat))) % (natval(pk.nNat) * natval(pk.nNat))
 
+// Encryption with a fresh nonce: same panic domain as EncWithNonce; result and nonce are fresh.
+//@ func (PublicKey).Enc
+//@   nopanic[C05]
+//@   requires pkvok(pk) && pkvvals(pk) && m != nil
+//@   use bits
+//@   panics_iff[C12] abs(natval(m)) > natval(pk.nNat) / 2
+//@   modifies nothing
+//@   allocates
+//@   ensures result0 != nil && fresh(result0) && fresh(result0.c) && result1 != nil
+
 //@ func (*PublicKey).N
 //@   nopanic[C05]
 //@   requires pkok(pk)
@@ -151,3 +161,15 @@ package paillier
 //@ func (*Ciphertext).WriteTo
 //@   modifies wlog(w)
 //@   ensures[C19,C10] (result1 == nil && ct != nil) ==> wlog(w) == wcat(old(wlog(w)), nfill(ct.c, 512))
+
+// Local key generation (prime sampling in the worker pool; not verified -- no network input reaches it): assumed to
+// return well-formed keys and to touch nothing the caller holds.
+//@ pred skwf(sk *SecretKey) := sk != nil && sk.PublicKey != nil && pkok(sk.PublicKey) && pkvals(sk.PublicKey) && pkbig(sk.PublicKey) && sk.p != nil && sk.q != nil && sk.phi != nil && sk.phiInv != nil
+//@ func NewSecretKey
+//@   modifies nothing
+//@   allocates
+//@   ensures skwf(result) && fresh(result)
+//@ func (SecretKey).GeneratePedersen
+//@   modifies nothing
+//@   allocates
+//@   ensures result0 != nil && pedersen.pedok(result0) && result1 != nil
